@@ -9,6 +9,9 @@ import Mdsort.Spec.Mime
 import Mdsort.Proofs.Mime
 import Mdsort.Model.Eval
 import Driver.Ast
+import Driver.Wire
+import Mdsort.Model.Main
+import Mdsort.Model.Plan
 import Mdsort.Spec.Rules
 import Mdsort.Spec.Interp
 import Mdsort.Proofs.Interp
@@ -314,6 +317,107 @@ def handleSmall (side op : String) (args : List Bytes) : Option String :=
   | "M", "pjoin", [siz, d, f] => some (optHex (Model.pathjoin (asNat siz) d f))
   | _, _, _ => none
 
+/-! ### world-level conformance -/
+
+def fsDump (w : Model.World) : String :=
+  String.intercalate ";" (w.dirs.map fun (p, es) =>
+    Driver.hex p ++ "=" ++ String.intercalate "," ((es.mergeSort (fun a b => decide (a.1 ≤ b.1))).map fun (n, fid) =>
+      match w.file fid with
+      | some f => Driver.hex n ++ ":" ++ Driver.hex f.data ++ ":" ++ Driver.hex f.durable
+      | none => Driver.hex n ++ ":?:?"))
+
+/-- conform <env> <blocks> <files> <devs> <stdin> <trace>  (each argument a hex blob of text) -/
+def worldBindings (w : Model.World) : List Bytes :=
+  w.dirs.flatMap fun (_, es) => es.filterMap fun (_, fid) => (w.file fid).map (·.data)
+
+def worldDurables (w : Model.World) : List Bytes :=
+  w.dirs.flatMap fun (_, es) => es.filterMap fun (_, fid) => (w.file fid).map (·.durable)
+
+/-- Model-level sanity scan: every single fault (and a sample of double faults) at every call index of the
+fault-free run; after every call some entry must hold a complete version of every initial message. -/
+def planScan (prog : Model.Prog (Nat × Model.MainSt)) (w0 : Model.World) (msgs : List Bytes) (discards : Bool) : String :=
+  let (_, wf, hist0) := Model.runPlan Model.Plan.none prog w0 0 []
+  let ncalls := hist0.length
+  let finals := worldBindings wf
+  let okWorld (w : Model.World) : Bool :=
+    discards || msgs.all fun m => (worldBindings w).any fun d => d == m || (finals.contains d && d != []) && d.length ≥ m.length
+  let okDurable (w : Model.World) : Bool :=
+    discards || msgs.all fun m => (worldDurables w).any fun d => d == m || (finals.contains d && d != []) && d.length ≥ m.length
+  let faults : List Model.Fault := [.fail "EIO", .fail "EEXIST", .fail "EXDEV", .fail "ENOENT", .short 1]
+  let plans : List (Nat × Model.Fault) := (List.range ncalls).flatMap fun i => faults.map fun f => (i, f)
+  let bad := plans.filterMap fun (i, f) =>
+    let plan : Model.Plan := fun k => if k == i then some f else none
+    let (_, _, hist) := Model.runPlan plan prog w0 0 []
+    match hist.findIdx? (fun w => !(okWorld w && okDurable w)) with
+    | some j => some s!"{i}:{repr f}@{j}"
+    | none => none
+  let doubles : List (Nat × Nat) := (List.range ncalls).flatMap fun i => [(i, i + 1), (i, i + 3), (i, i + 7)]
+  let bad2 := doubles.filterMap fun (i, j) =>
+    let plan : Model.Plan := fun k => if k == i || k == j then some (.fail "EIO") else none
+    let (_, _, hist) := Model.runPlan plan prog w0 0 []
+    match hist.findIdx? (fun w => !(okWorld w && okDurable w)) with
+    | some q => some s!"{i}+{j}@{q}"
+    | none => none
+  s!"SCAN calls={ncalls} plans={plans.length + doubles.length} bad={(bad ++ bad2).length} {String.intercalate " " ((bad ++ bad2).take 5)}"
+
+def handleConform (args : List Bytes) : String :=
+  match args with
+  | [envB, blocksB, filesB, devsB, input, traceB] =>
+    let ew := Driver.words (Driver.asText envB)
+    match ew with
+    | [now, pid, host, random, tmpdir, home, confpath, dry, syn, sin, confok] =>
+      match Driver.unhex host, Driver.unhex tmpdir, Driver.unhex home, Driver.unhex confpath with
+      | some host, some tmpdir, some home, some confpath =>
+        let env : Model.PEnv := { now := (now.toInt?).getD 0, pid := (pid.toNat?).getD 0, host := host, random := (random.toNat?).getD 0,
+                                  tmpdir := tmpdir, home := home, confpath := confpath, dryrun := dry == "1", syntaxOnly := syn == "1",
+                                  stdinMode := sin == "1" }
+        let blocks : Option (List Model.ConfBlock) := (Driver.lines blocksB).mapM fun l =>
+          match Driver.words l with
+          | "B" :: np :: rest =>
+            let k := (np.toNat?).getD 0
+            match (rest.take k).mapM Driver.unhex, Driver.parseExpr (String.intercalate " " (rest.drop k)) with
+            | some ps, some e => some { paths := ps, expr := e }
+            | _, _ => none
+          | _ => none
+        let files : Option Model.Files := (Driver.lines filesB).mapM fun l =>
+          match Driver.words l with
+          | [d, n, c] => do let d ← Driver.unhex d; let n ← Driver.unhex n; let c ← Driver.unhex c; pure (d, n, c)
+          | _ => none
+        let devs : List (Bytes × Nat) := (Driver.lines devsB).filterMap fun l =>
+          match Driver.words l with
+          | [p, d] => (Driver.unhex p).map fun p => (p, (d.toNat?).getD 0)
+          | _ => none
+        match blocks, files, (if traceB == ofString "SCAN" then some [] else Driver.parseTrace traceB) with
+        | some blocks, some files, some trace =>
+          -- initial abstract file system: every directory named by the files, every file durable
+          let dirNames := (files.map (·.1)).eraseDups
+          let files := files.filter fun e => !e.2.1.isEmpty
+          let indexed := files.zipIdx
+          let w0 : Model.World := {
+            dirs := dirNames.map fun d => (d, (indexed.filter fun e => e.1.1 == d).map fun e => (e.1.2.1, e.2)),
+            files := indexed.map fun e => (e.2, { data := e.1.2.2, durable := e.1.2.2, mtime := 0 }),
+            nextFid := files.length, handles := [.other, .other, .other], devs := devs, trace := [] }
+          let orc : Model.EvalOracles := { rx := rxFFI, strptime := strptimeEnv, zoneName := zoneEnv env.now }
+          let prog := Model.mainP env orc (confok == "1") blocks files input
+          if traceB == ofString "SCAN" then
+            let inMd := files.filter fun e => (ofString "/new").isSuffixOf e.1 || (ofString "/cur").isSuffixOf e.1
+            planScan prog w0 ((if env.stdinMode then [input] else []) ++ inMd.map (·.2.2))
+              (blocks.any fun b => exprAny (fun x => match x with | .discard _ => true | _ => false) b.expr)
+          else
+          match Model.conform prog w0 trace 0 with
+          | .done (status, st) w rest =>
+            let tail := match rest with
+              | [] => ""
+              | x :: _ => s!" EXTRA {rest.length} next={Driver.callStr x.1}"
+            s!"OK exit={status} reject={st.reject}{tail} FS {fsDump w} LOG {String.intercalate "," (st.log.map Driver.hex)}"
+          | .diverge pos exp got =>
+            s!"DIVERGE pos={pos} expected=[{Driver.callStr exp}] got=[{match got with | some c => Driver.callStr c | none => "end-of-trace"}]"
+          | .impossible pos c r => s!"IMPOSSIBLE pos={pos} call=[{Driver.callStr c}] result=[{Driver.resStr r}]"
+        | _, _, _ => "BADSCENARIO"
+      | _, _, _, _ => "BADENV"
+    | _ => "BADENV"
+  | _ => "BADOP"
+
 def handleMsg (side op : String) (args : List Bytes) : Option String :=
   match side, op, args with
   | "M", "hparse", [m] => some (dumpTable (Model.parseMessage m))
@@ -331,6 +435,7 @@ def handleMsg (side op : String) (args : List Bytes) : Option String :=
   | "M", "unfold", [v] => some (toHex (Model.unfoldHeader v))
   | "M", "ctype", [] => some ctypeTable
   | "M", "eval", as => some (handleEval as)
+  | "M", "conform", as => some (handleConform as)
   | _, _, _ => none
 
 def handle (side op : String) (args : List String) : String :=
